@@ -22,7 +22,7 @@ RLEAVES = ['mod:m_winnow', 'mod:m_vspec', 'mod:m_rspec', 'fn:number', 'fn:identi
 RCOMPARATORS = ['fn:partial', 'fn:caret', 'fn:tilde', 'fn:primitive', 'fn:partial_desugar_whole', 'fn:caret_desugar_whole', 'fn:tilde_desugar_whole', 'fn:primitive_desugar_whole']
 # how comparators are put together: hyphen ranges, the terminator look-ahead, garbage skipping, the blank separated list of one alternative
 # (-> intersect_all) and the `||` separated list of alternatives (-> concatenation), as whole functions
-RTOP = ['fn:parser', 'fn:hyphen', 'fn:hyphen_desugar_whole', 'fn:garbage', 'fn:simple', 'fn:range', 'fn:bound_sets']
+RTOP = ['fn:parser', 'fn:hyphen', 'fn:hyphen_desugar_whole', 'fn:garbage', 'fn:simple', 'fn:range', 'fn:bound_sets', 'fn:range_set', 'fn:Range::parse_str']
 DESUGAR = RLEAVES + RCOMPARATORS + RTOP + ['clauses:' + f for f in DESUGAR_FNS] + ['fn:Partial::normalize', 'fn:Version::from@m_desugar', 'fn:Version::from@m_version', 'fn:number_check', 'fn:identifier_classify']
 FROM_U64 = ['fn:Version::from@m_version']
 # the representation invariant is ESTABLISHED by everything that builds a Range: the set-operation properties quantify over "ranges obtained
@@ -33,7 +33,7 @@ WF_EST = RLEAVES + ['clausere:#wf$', 'clausere:#small$', 'fn:intersect_all', 'fn
 VGRAMMAR = ['mod:m_winnow', 'mod:m_vspec', 'fn:number', 'fn:version_core', 'fn:identifier', 'fn:build', 'fn:pre_release', 'fn:extras', 'fn:version', 'fn:Extras::values']
 WINNOW = 'A15: the contracts of the winnow 0.6 combinators the grammar uses (contracts/winnow_shim.rs, written from winnow\'s documentation and source; nothing of winnow is verified): sequence tuples, alt, opt, preceded, terminated, separated, map, try_map, take, context, literal, take_while, space0, digit1, eof, AsChar::is_alphanum; error payloads, Cut/Incomplete and the input position after a failed parse are not modelled'
 FMT = 'A16: the `write!` model of contracts/fmt_spec.rs: write!(f, "p0{}p1", a) appends p0 + disp(a) + p1 to the formatter when it returns Ok; `{}` prints a u64 as its decimal digits (dec_text: non-empty, all digits, reads back to the number), a String as its characters, a value of one of the crate\'s types as what its own Display impl (lifted, R9) is proved to write; R17: `for (i, x) in e.iter().enumerate()` is verified as a counter next to `for x in e.iter()`; a Vec holds at most usize::MAX elements'
-TEXT_SHELL = 'every function of the range grammar below `range_set` is under contract as a whole function over ' + WINNOW + ': text -> (operator, partial) by a reference reader -> interval satisfying the clause grid; `simple` = the first form that ends at a terminator, else garbage; `range` = intersect_all of the blank separated comparators (conj_post), or `*` for an empty alternative; `bound_sets` = the concatenation over the `||` separated alternatives. NOT under contract: `range_set` as a whole (its closure is, lifted; the function is pinned) and Range::parse (pinned); and the last step -- from these per-function contracts to ONE statement "rsat(parse(text), v) <=> npm admits v for this text" -- is not assembled: the property is decided at AST level for every operator / Partial value plus, separately, that the text is read into exactly those ASTs'
+TEXT_SHELL = 'every function of the range grammar below `range_set` is under contract as a whole function over ' + WINNOW + ': text -> (operator, partial) by a reference reader -> interval satisfying the clause grid; `simple` = the first form that ends at a terminator, else garbage; `range` = intersect_all of the blank separated comparators (conj_post), or `*` for an empty alternative; `bound_sets` = the concatenation over the `||` separated alternatives. `range_set` (fails exactly when no alternative is left) and Range::parse (R15/R16/R19) are under contract too. NOT assembled: the last step -- from these per-function contracts to ONE statement "rsat(parse(text), v) <=> npm admits v for this text" -- is not assembled: the property is decided at AST level for every operator / Partial value plus, separately, that the text is read into exactly those ASTs'
 STD = 'std axioms A1-A12 of DESIGN.md 2.4 (Box, cmp::max/min for a lawful Ord, Vec/String ordering, derived impls, Clone, iterator idioms, Hash feed) as listed in coverage.trusted_base'
 
 PROPS = {
@@ -41,7 +41,7 @@ PROPS = {
         title='Range satisfaction follows npm range semantics (AST level)',
         obligations=ORDER + BOUNDS + SAT + RANGE_SPEC + ['mod:m_npm', 'fn:BoundSet::intersect', 'fn:intersect_all'] + DESUGAR + ['fn:range_set_check', 'fn:lemma_c01_alternative', 'fn:lemma_c01_range', 'fn:empty_range_desugar', 'fn:lemma_c01_parse_failure', 'fn:lemma_shape_none_is_empty', 'fn:lemma_shape_c_repr', 'fn:lemma_shape_equiv_repr'] + ['fn:cover_plain', 'fn:cover_caret', 'fn:cover_tilde', 'fn:cover_hyphen'] + ['fn:cover_primitive_' + o for o in ('Exact', 'GreaterThan', 'GreaterThanEquals', 'LessThan', 'LessThanEquals')],
         assumptions=[TEXT_SHELL, STD, 'node-semver README / range.js 7.6.2 desugaring tables transcribed by hand into npm_spec.rs; `*` is `>=0.0.0` as the README states (node\'s internal `>=0.0.0 -> *` shortcut is not modelled)'],
-        not_decided=['the assembly of the per-function contracts of the range grammar into one text-level statement; `range_set` / Range::parse as whole functions (pinned)'],
+        not_decided=['the assembly of the per-function contracts of the range grammar into one text-level statement'],
         witness='c01',
     ),
     'C02': dict(
